@@ -564,7 +564,7 @@ pub fn supervise(driver: &dyn Driver, ctx: &Ctx, only: Option<(usize, usize)>) -
                     }
                 };
                 agg.crashes.push(crash);
-                if only.is_some() || agg.crashes.len() > 400 {
+                if only.is_some() || agg.crashes.len() > 400 + units / 100 {
                     live -= 1;
                     continue;
                 }
